@@ -19,10 +19,12 @@ import (
 	"net/http"
 	"os"
 	"path/filepath"
+	"reflect"
 	"sort"
 	"strings"
 	"sync"
 	"time"
+	"unsafe"
 
 	"github.com/go-openapi/runtime/client"
 
@@ -365,6 +367,67 @@ func selectedCert(m *material, cfg *tls.Config) (id string, failed bool) {
 	return "none", false
 }
 
+// wrappedTransport reads the round tripper a KeepAliveTransport wraps (unexported field `wrapped`).
+func wrappedTransport(rt http.RoundTripper) *http.Transport {
+	v := reflect.ValueOf(rt)
+	if v.Kind() != reflect.Ptr || v.IsNil() || v.Elem().Kind() != reflect.Struct {
+		return nil
+	}
+	f := v.Elem().FieldByName("wrapped")
+	if !f.IsValid() || !f.CanAddr() {
+		return nil
+	}
+	inner, _ := reflect.NewAt(f.Type(), unsafe.Pointer(f.UnsafeAddr())).Elem().Interface().(http.RoundTripper)
+	tr, _ := inner.(*http.Transport)
+	return tr
+}
+
+// throughReuseSame: the configuration in effect once the transport built from the options goes through
+// client.KeepAliveTransport and through Runtime.EnableConnectionReuse (both ways a Runtime can hold it) is unchanged.
+func throughReuseSame(m *material, o opts, cb *cbState, cache tls.ClientSessionCache, want M) (same bool) {
+	defer func() {
+		if r := recover(); r != nil {
+			same = false
+		}
+	}()
+	proj := func(tr *http.Transport) M {
+		var c2 *tls.Config
+		if tr != nil {
+			c2 = tr.TLSClientConfig
+		}
+		p := project(m, c2, nil, o, cb, cache)
+		p["panic"] = false
+		return p
+	}
+	// (a) KeepAliveTransport(TLSTransport(opts))
+	tr, err := client.TLSTransport(o.render(m, cb, cache))
+	if err != nil {
+		return false
+	}
+	if !sameProjection(want, proj(wrappedTransport(client.KeepAliveTransport(tr)))) {
+		return false
+	}
+	// (b) NewWithClient(TLSClient(opts)).EnableConnectionReuse()
+	hc, err := client.TLSClient(o.render(m, cb, cache))
+	if err != nil {
+		return false
+	}
+	rt := client.NewWithClient("verif.test", "/", []string{"https"}, hc)
+	rt.EnableConnectionReuse()
+	if !sameProjection(want, proj(wrappedTransport(hc.Transport))) {
+		return false
+	}
+	// (c) New(...).Transport = TLSTransport(opts); EnableConnectionReuse()
+	tr2, err := client.TLSTransport(o.render(m, cb, cache))
+	if err != nil {
+		return false
+	}
+	rt2 := client.New("verif.test", "/", []string{"https"})
+	rt2.Transport = tr2
+	rt2.EnableConnectionReuse()
+	return sameProjection(want, proj(wrappedTransport(rt2.Transport)))
+}
+
 func sameProjection(a, b M) bool {
 	return fmt.Sprint(a) == fmt.Sprint(b)
 }
@@ -473,7 +536,9 @@ func execute(c *drv.Ctx, d M) bool {
 		pc["panic"] = panicked
 		wrappers = sameProjection(p, pt) && sameProjection(p, pc)
 	}()
+	reuseSame := err != nil || cfg == nil || panicked || throughReuseSame(m, o, cb, cache, p)
 	p["wrappers_same"] = wrappers
+	p["reuse_same"] = reuseSame
 	c.W.Event("config", p)
 	if drv.Bool(d["handshake"]) && err == nil && cfg != nil && !panicked {
 		for _, name := range []string{"A", "B", "C", "D", "E"} {
